@@ -143,6 +143,21 @@ theorem scatter_counterexample :
 /-- … which the repaired code does not do on the same input -/
 example : ((plan true {} f4Stores {} f4Region "g" f4Choices).1.targets.map (·.1)).length = 3 := by decide
 
+/-! The defect F24 (open): `selectAvailableLeaderStores` looks at the leader counters only – not at the
+    store state, the pause flag or the reject-leader property – and the forced target leader gets past the
+    builder's own check.  Witness: nobody can move (every store holds a peer), store 3 does not take leaders
+    and is visited first by the leader loop. -/
+def f24Stores : List Store := [{ id := 1 }, { id := 2 }, { id := 3, pauseLeader := true }]
+
+def f24Choices : Choices :=
+  { storeOrder := [1, 2, 3], guard := fun _ _ => true, order := [1, 2, 3], sorder := [], lorder := [3, 1, 2] }
+
+/-- region scatter asks for – and, forced, gets – a leader on a store that does not accept leaders -/
+theorem scatter_leader_counterexample :
+    requestValid f4Region (plan true {} f24Stores {} f4Region "g" f24Choices).1 = true ∧
+    (plan true {} f24Stores {} f4Region "g" f24Choices).1.leader = 3 ∧
+    C11.acceptsLeader { conf := {}, stores := f24Stores, region := f4Region } 3 = false := by decide
+
 /-- non-vacuity: the hypotheses of the scatter theorems hold on the witness (one peer per store, the
     visiting order is a permutation of the peers) -/
 example : f4Region.stores.Nodup ∧ OrdersOK f4Region f4Choices := by
@@ -246,8 +261,8 @@ theorem transfer_leader_to_voter (x : C11.Input) (o : Opts) (p : Peer) (t : Stor
     simp only [List.any_eq_false]
     intro kv hkv; simpa using h10 kv.1 kv.2 hkv
 
-/-- the forced variant (grant-leader): the target is the follower on the configured store; it is
-    accepted as soon as that store exists and is no tombstone -/
+/-- the forced variant (grant-leader only): the target is the follower on the store the administrator
+    configured; it is accepted as soon as that store exists and is no tombstone -/
 theorem forced_transfer_ok (x : C11.Input) (p : Peer) (t : Store) (hforced : x.forced = true)
     (hnd : (x.stores.map (·.id)).Nodup) (hm : t ∈ x.stores) (hst : t.state < 2)
     (hp : x.region.storePeer t.id = some p) (hvoter : p.isLearner = false) (hne : x.region.leaderStore ≠ t.id) :
@@ -296,5 +311,10 @@ theorem scheduler_sites_guarded :
        ("server/schedulers/shuffle_leader.go:shuffleLeaderScheduler.Schedule", "CreateTransferLeaderOperator"),
        ("server/schedulers/shuffle_region.go:shuffleRegionScheduler.Schedule", "CreateMovePeerOperator")] := by
   decide
+
+/-- the set excluded by the F4 repair is built from *all* peers of the region (`region.GetPeers()`),
+    as `candidates` models it – not only from the voters -/
+theorem scatter_excludes_every_other_peer :
+    PdModel.Generated.Scatter.scatterExcludesEveryOtherPeer = true := by decide
 
 end PdModel.Scatter
